@@ -352,6 +352,15 @@ class Run:
         return True
 
     def source(self, via, i):
+        if via["how"] == "path-shared":
+            # one path re-written with the current image before each use (a loop rendering every figure to the same file)
+            d = os.path.join(self.tmp, "shared")
+            os.makedirs(d, exist_ok=True)
+            p = os.path.join(d, via["name"])
+            with open(p, "wb") as fh:
+                fh.write(self.images[i])
+            self.acc.count("additions_from_a_path_rewritten_with_other_bytes")
+            return p
         if via["how"] == "path":
             d = os.path.join(self.tmp, "img%d" % i)
             os.makedirs(d, exist_ok=True)
@@ -403,7 +412,7 @@ class Run:
                 shapes = shapes.add_group_shape().shapes
             wh = [Emu(op[k]) if op.get(k) else None for k in ("w", "h")]
             sh = shapes.add_picture(src, pos[0], pos[1], wh[0], wh[1])
-            acc.hit("group.add_picture" if kind == "grp" else "add_picture:" + ("path" if op["via"]["how"] == "path" else "stream"))
+            acc.hit("group.add_picture" if kind == "grp" else "add_picture:" + ("path" if op["via"]["how"].startswith("path") else "stream"))
         elif kind == "ph":
             layout = [lo for lo in prs.slide_layouts if any(p.placeholder_format.type == PP_PLACEHOLDER.PICTURE for p in lo.placeholders)][0]
             slide = prs.slides.add_slide(layout)
@@ -575,7 +584,7 @@ def gen_history(i):
             return {"how": rnd.choice(["stream", "stream", "stream-reused"])}
         right = sorted(EXTS[fmt])[0]
         ext = rnd.choice([right, right, right.upper(), "", "dat"] + [sorted(EXTS[f])[-1] for f in FORMATS if f != fmt])
-        return {"how": "path", "name": rnd.choice(stems) + ("." + ext if ext else "")}
+        return {"how": "path" if rnd.random() < 0.7 else "path-shared", "name": rnd.choice(stems) + ("." + ext if ext else "")}
 
     used = []
 
